@@ -173,6 +173,23 @@ pub fn apply_op(op: &Op, top: bool) {
             wd.model.borrow_mut().roots.remove(i);
             drop(h);
         }
+        Op::DropClosureRoots(sel) => {
+            let hs = wd.model.borrow().handles();
+            let Some(i) = pick(*sel, hs.len()) else { return noop() };
+            let (_, t) = hs[i];
+            let members = wd.model.borrow().closure(t);
+            loop {
+                // roots may change while we drop (destructor scripts): re-scan every time
+                let idx = wd.model.borrow().roots.iter().position(|r| members.contains(r));
+                let Some(i) = idx else { break };
+                let h = wd.roots.borrow_mut().remove(i);
+                wd.model.borrow_mut().roots.remove(i);
+                drop(h);
+                if wd.dact_depth.get() > 3 {
+                    break;
+                }
+            }
+        }
         Op::Store { owner, target, adopt } => {
             let hs = wd.model.borrow().handles();
             let (Some(io), Some(it)) = (pick(*owner, hs.len()), pick(*target, hs.len())) else { return noop() };
